@@ -381,6 +381,41 @@ theorem lin_program_order {q0 : St} (programs : List (List Op)) {log : List (Ev 
   exact ⟨hI.len, fun t th h => ⟨hI.ops t th h, hI.rops t th h, hI.rpcs t th h⟩, hI.segs⟩
 
 
+/-- **the linearization point lies within the operation's interval.** Take any segment in the log of a run
+    (in particular a returning one: a linearization point) of operation instance (thread `t`, program counter
+    `pc`). (1) It is the invocation segment, or the invocation segment of the same instance precedes it in
+    the log. (2) If it is the invocation segment, no segment of thread `t` at the same or a later program
+    counter precedes it — an instance does nothing before its invocation. Hence for two operations A, B where
+    A's returning segment precedes B's invocation in the log, A's linearization point precedes B's. -/
+theorem lin_point_within_operation {q0 : St} (programs : List (List Op)) {s : Sys St Op} {l1 l2 : List (Ev St Op)}
+    {t pc : Nat} {op : Op} {first c : Bool} {pre : St} {out : SegOut St}
+    (hr : Reach' subject (initSys q0 programs) (l1 ++ Ev.seg t pc op first c pre out :: l2) s) :
+    (first = true ∨ ∃ c' pre' out', Ev.seg t pc op true c' pre' out' ∈ l1) ∧
+    (first = true → ∀ pc' op' f' c' pre' out', Ev.seg t pc' op' f' c' pre' out' ∈ l1 → pc' < pc) := by
+  refine ⟨hr.invocation_before, ?_⟩
+  intro hf; subst hf
+  exact hr.invocation_first
+
+/-- a context error is returned only after the operation's context was cancelled: a `cancel` action for the
+    thread lies in the log between the invocation of that very operation and the segment returning "ctx"
+    (and, by `ctx_error_no_effect`, the operation changed nothing) -/
+theorem ctx_only_after_cancel {q0 : St} (h0 : InitQ q0) (programs : List (List Op)) {s : Sys St Op}
+    {l1 l2 : List (Ev St Op)} {t pc : Nat} {op : Op} {first c : Bool} {pre : St} {out : SegOut St}
+    (hr : Reach' subject (initSys q0 programs) (l1 ++ Ev.seg t pc op first c pre out :: l2) s)
+    (hn : op.isNext = false) (hf : out.fin = .ret "ctx") :
+    specOf out.st = specOf pre ∧ first = false ∧
+    ∃ l1a l1b, l1 = l1a ++ [Ev.env (.cancel t)] ++ l1b ∧ ∀ ev ∈ l1b, ¬ ev.isStartOf t := by
+  obtain ⟨hS, hseg⟩ := (run_segments h0 programs hr).2 t pc op first c pre out (by simp)
+  obtain ⟨e1, e2, _⟩ := ctx_error_no_effect pre hS hseg hn hf
+  subst e2
+  exact ⟨e1, hr.cancel_before⟩
+
+/-- every case the driver executes (`runCase`: the choice list, then the fixed drain policy) is one of the
+    runs the theorems quantify over -/
+theorem driver_runs_covered (q0 : St) (programs : List (List Op)) (choices : List Nat) :
+    ∃ log, Reach' subject (initSys q0 programs) log (runCaseSys subject q0 programs choices) :=
+  runCase_reach subject q0 programs choices
+
 /-! ## non-vacuity: the hypotheses are satisfiable by non-trivial states and runs -/
 
 /-- valid configurations exist (unlimited, and hard limit 3 / soft quota 1 / any burst) -/
